@@ -74,6 +74,9 @@ func genC10(seed uint64, idx int, tier string) *Scenario {
 			sc.Schedule[i] |= 1<<16 | 3<<17
 		}
 		sc.Params["yield_pct"] = []int{30, 50, 70}[r.Intn(3)]
+		if r.Chance(0.5) {
+			sc.Params["yield_hot"] = []int{15, 30, 50}[r.Intn(3)] // a subset of the sites always yields
+		}
 		sc.Class += " flood yields"
 	} else if r.Chance(0.4) {
 		bursty := r.Chance(0.5)
